@@ -13,50 +13,50 @@ fn mkn<N: FromLabel>(pool: bool, sh: &[usize], es: &[i128]) -> Option<Array<N>> 
     Array::new(es.iter().map(|&x| N::conv(pool, x)).collect(), sh.to_vec()).ok()
 }
 
-fn call2_num<N: Numeric>(op: &str, a: &Array<N>, b: &Array<N>) -> Option<Result<Array<N>, ArrayError>> {
+fn call2_num<N: Numeric + Lab>(op: &str, a: &Array<N>, b: &Array<N>) -> Option<Result<Array<N>, ArrayError>> {
     Some(match op {
-        "add" => ArrayArithmetic::add(a, b), "subtract" => a.subtract(b), "multiply" => a.multiply(b),
-        "divide" => a.divide(b), "true_divide" => a.true_divide(b), "floor_divide" => a.floor_divide(b),
-        "power" => a.power(b), "float_power" => a.float_power(b),
-        "remainder" => a.remainder(b), "mod" => a.r#mod(b), "fmod" => a.fmod(b),
-        "logn" => a.logn(b), "log_add_exp" => a.log_add_exp(b), "log_add_exp2" => a.log_add_exp2(b),
-        "bitwise_and" => a.bitwise_and(b), "bitwise_or" => a.bitwise_or(b), "bitwise_xor" => a.bitwise_xor(b),
-        "left_shift" => a.left_shift(b), "right_shift" => a.right_shift(b),
-        "maximum" => a.maximum(b), "minimum" => a.minimum(b), "fmax" => a.fmax(b), "fmin" => a.fmin(b),
-        "gcd" => a.gcd(b), "lcm" => a.lcm(b), "heaviside" => a.heaviside(b),
+        "add" => ArrayArithmetic::add(a, b), "subtract" => wr(a.subtract(b), okr(a).subtract(b)), "multiply" => wr(a.multiply(b), okr(a).multiply(b)),
+        "divide" => wr(a.divide(b), okr(a).divide(b)), "true_divide" => wr(a.true_divide(b), okr(a).true_divide(b)), "floor_divide" => wr(a.floor_divide(b), okr(a).floor_divide(b)),
+        "power" => wr(a.power(b), okr(a).power(b)), "float_power" => wr(a.float_power(b), okr(a).float_power(b)),
+        "remainder" => wr(a.remainder(b), okr(a).remainder(b)), "mod" => wr(a.r#mod(b), okr(a).r#mod(b)), "fmod" => wr(a.fmod(b), okr(a).fmod(b)),
+        "logn" => wr(a.logn(b), okr(a).logn(b)), "log_add_exp" => wr(a.log_add_exp(b), okr(a).log_add_exp(b)), "log_add_exp2" => wr(a.log_add_exp2(b), okr(a).log_add_exp2(b)),
+        "bitwise_and" => wr(a.bitwise_and(b), okr(a).bitwise_and(b)), "bitwise_or" => wr(a.bitwise_or(b), okr(a).bitwise_or(b)), "bitwise_xor" => wr(a.bitwise_xor(b), okr(a).bitwise_xor(b)),
+        "left_shift" => wr(a.left_shift(b), okr(a).left_shift(b)), "right_shift" => wr(a.right_shift(b), okr(a).right_shift(b)),
+        "maximum" => wr(a.maximum(b), okr(a).maximum(b)), "minimum" => wr(a.minimum(b), okr(a).minimum(b)), "fmax" => wr(a.fmax(b), okr(a).fmax(b)), "fmin" => wr(a.fmin(b), okr(a).fmin(b)),
+        "gcd" => wr(a.gcd(b), okr(a).gcd(b)), "lcm" => wr(a.lcm(b), okr(a).lcm(b)), "heaviside" => wr(a.heaviside(b), okr(a).heaviside(b)),
         _ => return None,
     })
 }
-fn call2_ops<N: NumericOps>(op: &str, a: &Array<N>, b: &Array<N>) -> Option<Result<Array<N>, ArrayError>> {
-    Some(match op { "atan2" => a.atan2(b), "hypot" => a.hypot(b), _ => return None })
+fn call2_ops<N: NumericOps + Lab>(op: &str, a: &Array<N>, b: &Array<N>) -> Option<Result<Array<N>, ArrayError>> {
+    Some(match op { "atan2" => wr(a.atan2(b), okr(a).atan2(b)), "hypot" => wr(a.hypot(b), okr(a).hypot(b)), _ => return None })
 }
-fn call2_fl<N: Floating>(op: &str, a: &Array<N>, b: &Array<N>) -> Option<Result<Array<N>, ArrayError>> {
-    Some(match op { "copysign" => a.copysign(b), "nextafter" => a.nextafter(b), _ => return None })
+fn call2_fl<N: Floating + Lab>(op: &str, a: &Array<N>, b: &Array<N>) -> Option<Result<Array<N>, ArrayError>> {
+    Some(match op { "copysign" => wr(a.copysign(b), okr(a).copysign(b)), "nextafter" => wr(a.nextafter(b), okr(a).nextafter(b)), _ => return None })
 }
 
-fn call1_num<N: Numeric>(op: &str, a: &Array<N>) -> Option<Result<Array<N>, ArrayError>> {
+fn call1_num<N: Numeric + Lab>(op: &str, a: &Array<N>) -> Option<Result<Array<N>, ArrayError>> {
     Some(match op {
-        "reciprocal" => a.reciprocal(), "positive" => a.positive(), "negative" => a.negative(),
-        "exp" => a.exp(), "exp2" => a.exp2(), "exp_m1" => a.exp_m1(), "log" => a.log(), "log10" => a.log10(),
-        "log2" => a.log2(), "log_1p" => a.log_1p(),
-        "acosh" => a.acosh(), "asinh" => a.asinh(), "atanh" => a.atanh(), "cosh" => a.cosh(), "sinh" => a.sinh(), "tanh" => a.tanh(),
-        "abs" => a.abs(), "absolute" => a.absolute(), "cbrt" => a.cbrt(), "fabs" => a.fabs(), "nan_to_num" => a.nan_to_num(),
-        "sqrt" => a.sqrt(), "square" => a.square(),
-        "ceil" => a.ceil(), "fix" => a.fix(), "floor" => a.floor(), "rint" => a.rint(), "trunc" => a.trunc(),
-        "bitwise_not" => a.bitwise_not(), "invert" => a.invert(),
+        "reciprocal" => wr(a.reciprocal(), okr(a).reciprocal()), "positive" => wr(a.positive(), okr(a).positive()), "negative" => wr(a.negative(), okr(a).negative()),
+        "exp" => wr(a.exp(), okr(a).exp()), "exp2" => wr(a.exp2(), okr(a).exp2()), "exp_m1" => wr(a.exp_m1(), okr(a).exp_m1()), "log" => wr(a.log(), okr(a).log()), "log10" => wr(a.log10(), okr(a).log10()),
+        "log2" => wr(a.log2(), okr(a).log2()), "log_1p" => wr(a.log_1p(), okr(a).log_1p()),
+        "acosh" => wr(a.acosh(), okr(a).acosh()), "asinh" => wr(a.asinh(), okr(a).asinh()), "atanh" => wr(a.atanh(), okr(a).atanh()), "cosh" => wr(a.cosh(), okr(a).cosh()), "sinh" => wr(a.sinh(), okr(a).sinh()), "tanh" => wr(a.tanh(), okr(a).tanh()),
+        "abs" => wr(a.abs(), okr(a).abs()), "absolute" => wr(a.absolute(), okr(a).absolute()), "cbrt" => wr(a.cbrt(), okr(a).cbrt()), "fabs" => wr(a.fabs(), okr(a).fabs()), "nan_to_num" => wr(a.nan_to_num(), okr(a).nan_to_num()),
+        "sqrt" => wr(a.sqrt(), okr(a).sqrt()), "square" => wr(a.square(), okr(a).square()),
+        "ceil" => wr(a.ceil(), okr(a).ceil()), "fix" => wr(a.fix(), okr(a).fix()), "floor" => wr(a.floor(), okr(a).floor()), "rint" => wr(a.rint(), okr(a).rint()), "trunc" => wr(a.trunc(), okr(a).trunc()),
+        "bitwise_not" => wr(a.bitwise_not(), okr(a).bitwise_not()), "invert" => wr(a.invert(), okr(a).invert()),
         _ => return None,
     })
 }
-fn call1_ops<N: NumericOps>(op: &str, a: &Array<N>) -> Option<Result<Array<N>, ArrayError>> {
+fn call1_ops<N: NumericOps + Lab>(op: &str, a: &Array<N>) -> Option<Result<Array<N>, ArrayError>> {
     Some(match op {
-        "i0" => a.i0(), "sinc" => a.sinc(),
-        "acos" => a.acos(), "asin" => a.asin(), "atan" => a.atan(), "cos" => a.cos(), "deg2rad" => a.deg2rad(),
-        "degrees" => a.degrees(), "rad2deg" => a.rad2deg(), "radians" => a.radians(), "sin" => a.sin(), "tan" => a.tan(),
+        "i0" => wr(a.i0(), okr(a).i0()), "sinc" => wr(a.sinc(), okr(a).sinc()),
+        "acos" => wr(a.acos(), okr(a).acos()), "asin" => wr(a.asin(), okr(a).asin()), "atan" => wr(a.atan(), okr(a).atan()), "cos" => wr(a.cos(), okr(a).cos()), "deg2rad" => wr(a.deg2rad(), okr(a).deg2rad()),
+        "degrees" => wr(a.degrees(), okr(a).degrees()), "rad2deg" => wr(a.rad2deg(), okr(a).rad2deg()), "radians" => wr(a.radians(), okr(a).radians()), "sin" => wr(a.sin(), okr(a).sin()), "tan" => wr(a.tan(), okr(a).tan()),
         _ => return None,
     })
 }
-fn call1_fl<N: Floating>(op: &str, a: &Array<N>) -> Option<Result<Array<N>, ArrayError>> {
-    Some(match op { "spacing" => a.spacing(), _ => return None })
+fn call1_fl<N: Floating + Lab>(op: &str, a: &Array<N>) -> Option<Result<Array<N>, ArrayError>> {
+    Some(match op { "spacing" => wr(a.spacing(), okr(a).spacing()), _ => return None })
 }
 
 /// per-type view of which operation families exist for the element type
@@ -95,11 +95,22 @@ fn ew2_round<N: Elem>(pool: bool, op: &str, s1: &[usize], e1: &[i128], s2: &[usi
     let call = |x: &Array<N>, y: &Array<isize>| if op == "round" { x.round(y) } else { x.around(y) };
     let r = call(&a, &d);
     let mut tbl = vec![];
+    let mut rf = vec![];
     for &x in &distinct(e1) { for &y in &distinct(e2) {
         let v = single_val(call(&Array::single(N::conv(pool, x)).unwrap(), &Array::single(y as isize).unwrap()));
         tbl.push(format!("{x}/{y}={v}"));
+        if is_float::<N>() {
+            // rounding to y decimal places: the nearest multiple of 10^-y (exact ties and scalings that leave the
+            // range of f64 are not judged)
+            let xf = N::conv(pool, x).to_f64();
+            let m = 10f64.powi(y as i32);
+            let scaled = xf * m;
+            let want = if !scaled.is_finite() || m == 0.0 || !m.is_finite() || (scaled - scaled.trunc()).abs() == 0.5 { None }
+                       else { Some(scaled.round() / m) };
+            rf.push(format!("{x}/{y}={}~{}", fref(want), fref(Some(xf.abs()))));
+        }
     } }
-    Some(format!("{}|tbl({})", res_arr(&r), tbl.join(";")))
+    Some(format!("{}|tbl({})|{}({})", res_arr(&r), tbl.join(";"), ref_tag::<N>(), rf.join(";")))
 }
 
 
@@ -139,6 +150,11 @@ fn ref2(op: &str, x: f64, y: f64, single: bool) -> Option<f64> {
         // the step function of NaN is not stated
         "heaviside" => if x.is_nan() { return None } else if x < 0.0 { 0.0 } else if x == 0.0 { y } else { 1.0 },
         "copysign" => x.copysign(y),
+        // bitwise logic and shifts on floats go through an integer cast
+        "bitwise_and" => ((x as i128) & (y as i128)) as f64, "bitwise_or" => ((x as i128) | (y as i128)) as f64,
+        "bitwise_xor" => ((x as i128) ^ (y as i128)) as f64,
+        "left_shift" => if !(0.0..=60.0).contains(&y) { return None } else { ((x as i128) << (y as u32)) as f64 },
+        "right_shift" => if !(0.0..=60.0).contains(&y) { return None } else { ((x as i128) >> (y as u32)) as f64 },
         // beyond the range of exp the plain formula overflows: not judged
         "log_add_exp" => if x.is_nan() || y.is_nan() { f64::NAN } else if x.max(y) > 700.0 { return None } else { (x.exp() + y.exp()).ln() },
         // log_add_exp2: see the known finding F28 (judged separately against its documented definition)
@@ -220,7 +236,7 @@ fn plain2<N: Elem>(op: &str, args: &[Arg]) -> Option<String> {
 fn plain1<N: Elem>(op: &str, args: &[Arg]) -> Option<String> {
     let (s1, e1) = match args { [Arg::A(s1, e1)] => (s1, e1), _ => return None };
     let a = mkn::<N>(false, s1, e1)?;
-    if op == "sign" { return Some(res_arr(&a.sign())); }
+    if op == "sign" { return Some(w2(res_arr(&a.sign()), res_arr(&okr(&a).sign()))); }
     Some(res_arr(&call1(op, &a)?))
 }
 
